@@ -129,6 +129,10 @@ def observe(r):
     return (r.PGN, r.source, r.destination, v)
 
 
+VIEW_BUF = bytearray(13)
+USB_BUF = bytearray(20)
+
+
 def run_history(events, acc, label, faults: bool, formats=("ebyte",)):
     exp = expected_returns(events)
     n_expected = sum(1 for e in exp if e is not None)
@@ -148,6 +152,13 @@ def run_history(events, acc, label, faults: bool, formats=("ebyte",)):
                 try:
                     if fmt == "ebyte":
                         r = dec.decode_tcp(wire.ebyte_frame(ident, data))
+                    elif fmt == "ebyte_view":
+                        # the recv_into pattern: every frame lands in the same buffer, the decoder is given a view of it
+                        VIEW_BUF[:] = wire.ebyte_frame(ident, data)
+                        r = dec.decode_tcp(memoryview(VIEW_BUF))
+                    elif fmt == "usb_view":
+                        USB_BUF[:] = wire.usb_frame(ident, data)
+                        r = dec.decode_usb(memoryview(USB_BUF))
                     else:
                         r = dec.decode_yacht_devices_string(wire.yd_line(ident, data).strip())
                 except Exception as e:  # noqa: BLE001
@@ -326,7 +337,7 @@ def enum2(spec, acc):
             b = stream_script(other, rng, sb)
             for ev in interleavings(a, b, limit, rng):
                 run_history(ev, acc, f"enum2 {spec['pair']} A={sa} B={sb}", True,
-                            formats=("ebyte", "yd") if acc.evaluations % 50 == 0 else ("ebyte",))
+                            formats=("ebyte", "yd", "ebyte_view", "usb_view") if acc.evaluations % 50 == 0 else ("ebyte",))
             acc.cover("stream_shape_pairs", (sa, sb))
     acc.set_exhaustive("2 streams: all interleavings of short scripts (up to the per-pair limit)", False if quick else True)
 
@@ -379,7 +390,7 @@ def random_histories(spec, acc):
         merged = scripts[0]
         for s in scripts[1:]:
             merged = next(interleavings(merged, s, 1, rng)) if len(merged) + len(s) > 20 else rng.choice(list(interleavings(merged, s, 200, rng)))
-        run_history(merged, acc, f"random #{h}", True)
+        run_history(merged, acc, f"random #{h}", True, formats=("ebyte", "ebyte_view") if h % 3 == 0 else (("ebyte", "usb_view") if h % 3 == 1 else ("ebyte",)))
         acc.cover("history_lengths", len(merged) // 50 * 50)
     acc.sample({"kind": "random", "streams": len(streams)})
 
@@ -435,7 +446,7 @@ def sameblock(spec, acc):
             continue
         # equal and unequal sequence counters on the two streams both occur (random starts)
         for ev in interleavings(sa, sb, 6 if quick else 30, rng):
-            run_history(ev, acc, f"sameblock {a.pgn}+{b.pgn}", True)
+            run_history(ev, acc, f"sameblock {a.pgn}+{b.pgn}", True, formats=("ebyte", "ebyte_view") if rep % 4 == 0 else ("ebyte",))
             acc.count("same_block_histories")
         acc.cover("same_block_pairs", f"{a.pgn}+{b.pgn}")
 
